@@ -1,6 +1,9 @@
 /-
   C10/C11 — model of the pretty scanner of src/cpp/pretty-format.c, with the fix patches
-  fixes/C10-02 … C10-06 applied:
+  fixes/C10-02 … C10-06, C10-16 and fixes/C11-01, -02, -04, -05, -06 applied (leading white space and
+  comments in `rtosc_scan_arg_vals`; open-ended ranges count for numeric types only;
+  `can_precede_range` / `prev_ok`; nearest step count for 'f' / 'd' ranges; `num_read` as
+  `args_before` inside arrays):
   `parse_identifier`, `delta_from_arg_vals`, `insert_arg_range` (as used by the scanner),
   `rtosc_scan_arg_val`, `rtosc_scan_arg_vals`, `rtosc_scan_message`,
   and `rtosc_float2secfracs`, `rtosc_arg_val_from_params` (src/rtosc-time.c).
@@ -16,9 +19,11 @@
   No Mathlib import: linked into the driver.
 -/
 import RtoscModel.Pretty.Print
+import RtoscModel.Pretty.C11Float
 namespace Rtosc.Pretty
 open Rtosc Rtosc.Libc
 open Rtosc.ArgVal (Cell IntTy StrTy FlagTy)
+open Rtosc.Pretty.C11 (fromIntF negateF subF divF addF roundF multF toIntF eqTolCell rangeArgF cHalf AF32 AF64)
 
 /-- C `char` read as `int` (`char` is signed on the target) -/
 def scharVal (c : UInt8) : Int := if c.toNat < 128 then c.toNat else (c.toNat : Int) - 256
@@ -51,8 +56,11 @@ def float2secfracs (bits32 : Nat) : Res Nat := do
   if pIdx ≥ str1.length then throw .undef
   let hexdigitsAfterComma : Int := (pIdx : Int) - ((scanpos : Int) + 1)
   let lshift : Int := 32 - exp - hexdigitsAfterComma * 4
-  if lshift ≤ 0 ∨ lshift ≥ 64 then throw .undef
-  pure ((secfracs.toNat * 2 ^ lshift.toNat) % 18446744073709551616)
+  -- fix C10-16: mantissa bits below 2^-32 are cut off (no shift by a negative count)
+  if lshift ≥ 64 then throw .undef
+  else if lshift ≥ 0 then pure ((secfracs.toNat * 2 ^ lshift.toNat) % 18446744073709551616)
+  else if lshift > -64 then pure (secfracs.toNat / 2 ^ (-lshift).toNat)
+  else pure 0
 
 /-- `rtosc_arg_val_from_params(dest, &m_tm, secfracs)`: `val.t` -/
 def timeFromParams (tm : Tm) (secfracs : Nat) : Nat :=
@@ -71,33 +79,43 @@ def doubleToSecfracs (b : Nat) : Res Nat :=
       if v ≥ 18446744073709551616 then .error .undef else .ok v
     | _ => .error .undef
 
+/-- `numeric_range_types()` -/
+def numericRangeTypes : Bytes := lit "cihfdTF"
+
 /-- `delta_from_arg_vals(llhsarg, lhsarg, rhsarg, delta, must_be_unity)`:
-    (return value, `*delta`) -/
+    (return value, `*delta`).  The arithmetic of src/cpp/arg-val-math.c: integers and booleans
+    from `Pretty/Val.lean`, 'f' / 'd' from `Pretty/C11Float.lean`. -/
 def deltaFromArgVals (llhs : Option Cell) (lhs : Cell) (rhs : Option Cell) (mustBeUnity : Bool) :
     Res (Int × Cell) := do
   let (cmp, delta) ←
     if mustBeUnity then do
       let r ← match rhs with | some r => pure r | none => throw .undef
       let cmp ← cmpCell lhs r
-      let d ← must (fromInt r 1)
-      let d' ← if cmp > 0 then must (negate d) else pure d
+      let d ← must (fromIntF r 1)
+      let d' ← if cmp > 0 then must (negateF d) else pure d
       pure (cmp, d')
     else do
       let ll ← match llhs with | some c => pure c | none => throw .undef
-      let d ← must (subAV lhs ll)
+      let d ← must (subF lhs ll)
       let nullv ← match nullVal d with | some z => pure z | none => throw .undef
       let cmp ← cmpCell d nullv
       pure (cmp, d)
   if cmp = 0 then return (-1, delta)
   match rhs with
   | some r =>
-    let width ← must (subAV r lhs)
-    let div ← must (divAV width delta)
-    let div' ← must (roundAV div)
-    let width2 ← must (multAV div' delta)
+    let width ← must (subF r lhs)
+    let div ← must (divF width delta)
+    -- fix C11-05: for 'f' / 'd' take the nearest "n" (`rtosc_arg_val_round` rounds down)
+    let div1 ←
+      match div with
+      | .flt _ => must (addF div (.flt (cHalf AF32).toUInt32))
+      | .dbl _ => must (addF div (.dbl (cHalf AF64).toUInt64))
+      | _ => pure div
+    let div' ← must (roundF div1)
+    let width2 ← must (multF div' delta)
     -- rtosc_arg_vals_eq(&width, &width2, 1, 1, {0.001}): exact for the integer types
-    if !(← eqCell width width2) then return (-1, delta)
-    let res ← must (toIntAV div')
+    if !(← eqTolCell width width2) then return (-1, delta)
+    let res ← must (toIntF div')
     return (toI32 (res + 1), delta)
   | none => return (0, delta)
 
@@ -139,22 +157,34 @@ def scanStrParts : Nat → Bytes → Res (Bytes × Bytes)
 /-- what `rtosc_scan_arg_val` needs from itself for nested values -/
 abbrev ElemScanner := Bytes → List Cell → Nat → Bool → Res (Nat × List Cell)
 
-/-- the element loop of the array scanner: (rest of the text at ']' or NUL, cells, arrtype) -/
-def scanArrayElems (se : ElemScanner) : Nat → Bytes → List Cell → Nat → List Cell → UInt8 →
+/-- `can_precede_range(av)` (fix C11-04) on the cells of the value scanned last: the last element
+    of an array (or of a repeated array) is not the left neighbour of the value behind it -/
+def canPrecedeRange (cells : List Cell) : Res Bool := do
+  match ← deref cells with
+  | .arr .. => pure false
+  | .rep _ hdl =>
+    if hdl = 0 then (do let c ← deref (cells.drop 1); pure (c.type ≠ ArgVal.tyA)) else pure true
+  | _ => pure true
+
+/-- the element loop of the array scanner: (rest of the text at ']' or NUL, cells, arrtype).
+    `acc` are the cells written so far (`num_read` of them), `prevOk` is `prev_ok`
+    (fixes C11-04, C11-06: `args_before` is `prev_ok ? num_read : 0`, not the element index `i`) -/
+def scanArrayElems (se : ElemScanner) : Nat → Bytes → List Cell → Nat → Bool → List Cell → UInt8 →
     Res (Bytes × List Cell × UInt8)
-  | 0, _, _, _, _, _ => .error .fuel
-  | loopFuel + 1, s, prev, i, acc, arrtype =>
+  | 0, _, _, _, _, _, _ => .error .fuel
+  | loopFuel + 1, s, prev, i, prevOk, acc, arrtype =>
     if hd s ≠ 0 ∧ hd s ≠ 93 then do
-      let (rd, cells) ← se s prev i true
+      let (rd, cells) ← se s prev (if prevOk then acc.length else 0) true
       if rd = 0 then throw .hang
       let s1 ← advance s rd
+      let ok' ← canPrecedeRange cells
       let c0 ← deref cells
       let ty : UInt8 ← match c0 with
         | .rep _ hdl => (do let c ← deref (cells.drop (if hdl ≠ 0 then 2 else 1)); pure c.type)
         | c => pure c.type
       let argsScanned ← nextArgOffset (cells.length + 1) cells
       if argsScanned ≠ cells.length then throw .undef
-      scanArrayElems se loopFuel (skipSpace s1) (cells.reverse ++ prev) (i + 1) (acc ++ cells) ty
+      scanArrayElems se loopFuel (skipSpace s1) (cells.reverse ++ prev) (i + 1) ok' (acc ++ cells) ty
     else pure (s, acc, arrtype)
 
 /-- the numeric case of `rtosc_scan_arg_val`: one pass of the `do … while(repeat_once)` loop
@@ -283,7 +313,7 @@ def scanArray (se : ElemScanner) (src : Bytes) (prev : List Cell) : Res ValRes :
   -- start_arg is written after the loop; while the loop runs it is indeterminate, but the
   -- look-backs of the elements never reach it
   let hole : Cell := .arr 32 0
-  let (s2, elems, arrtype) ← scanArrayElems se (src.length + 1) s1 (hole :: prev) 0 [] 32
+  let (s2, elems, arrtype) ← scanArrayElems se (src.length + 1) s1 (hole :: prev) 0 true [] 32
   let r ← advance s2 1
   pure ⟨r, Cell.arr arrtype elems.length :: elems, true⟩
 
@@ -405,7 +435,7 @@ def finishArg (se : ElemScanner) (src : Bytes) (v : ValRes) (prev : List Cell) (
         | .rep num _ :: _ =>
           -- arg-3 is the range header, arg-2 its delta, arg-1 its start
           let block := [p3.headD (.rep 0 0), prev.getD 1 (.rep 0 0), prev.getD 0 (.rep 0 0)]
-          match ← rangeArg block (num - 1) with
+          match ← rangeArgF block (num - 1) with
           | some c => pure (some c)
           | none => throw .undef                    -- NULL is dereferenced
         | _ => throw .undef
@@ -419,8 +449,10 @@ def finishArg (se : ElemScanner) (src : Bytes) (v : ValRes) (prev : List Cell) (
         | some ll =>
           if !typesMatch ll.type lhsarg.type then pure true
           else do pure ((← cmpCell ll lhsarg) = 0)
+    -- like the syntax checker: only numeric types can count (fix C11-02)
+    let numericRange := numericRangeTypes.contains lhsarg.type
     let (hasDelta, num, delta) : Bool × Int × Option Cell ←
-      if infinite ∧ useless then pure (false, 0, none)
+      if infinite ∧ (useless ∨ !numericRange) then pure (false, 0, none)
       else do
         let (n, d) ← deltaFromArgVals llhs lhsarg rhs useless
         if infinite ∧ n = -1 then pure (false, n, some d) else pure (true, n, some d)
@@ -467,22 +499,26 @@ where
           pure (b + more)
       else .ok 0
 
-/-- the loop of `rtosc_scan_arg_vals`: (characters read, cells written); `i` cells are done -/
-def scanArgValsLoop : Nat → Bytes → Nat → Nat → List Cell → Nat → Res (Nat × List Cell)
-  | 0, _, _, _, _, _ => .error .fuel
-  | fuel + 1, src, n, i, done, rd =>
+/-- the loop of `rtosc_scan_arg_vals`: (characters read, cells written); `i` cells are done;
+    `prevOk` is `prev_ok` (fix C11-04: `args_before` is `prev_ok ? i : 0`) -/
+def scanArgValsLoop : Nat → Bytes → Nat → Nat → Bool → List Cell → Nat → Res (Nat × List Cell)
+  | 0, _, _, _, _, _, _ => .error .fuel
+  | fuel + 1, src, n, i, prevOk, done, rd =>
     if i < n then do
-      let (tmp, cells) ← scanArgVal (src.length + 2) src done.reverse i true
+      let (tmp, cells) ← scanArgVal (src.length + 2) src done.reverse (if prevOk then i else 0) true
+      let ok' ← canPrecedeRange cells
       let s1 ← advance src tmp
       let length ← nextArgOffset (cells.length + 1) cells
       if length ≠ cells.length then throw .undef
       let sk ← skipSpaceComments (s1.length + 1) s1
-      scanArgValsLoop fuel (s1.drop sk) n (i + length) (done ++ cells) (rd + tmp + sk)
+      scanArgValsLoop fuel (s1.drop sk) n (i + length) ok' (done ++ cells) (rd + tmp + sk)
     else pure (rd, done)
 
-/-- `rtosc_scan_arg_vals(src, args, n, buffer_for_strings, bufsize)` -/
-def scanArgVals (src : Bytes) (n : Nat) : Res (Nat × List Cell) :=
-  scanArgValsLoop (n + 1) src n 0 [] 0
+/-- `rtosc_scan_arg_vals(src, args, n, buffer_for_strings, bufsize)`; white space and comments in
+    front of the first value are skipped (fix C11-01) -/
+def scanArgVals (src : Bytes) (n : Nat) : Res (Nat × List Cell) := do
+  let sk ← skipSpaceComments (src.length + 1) src
+  scanArgValsLoop (n + 1) (src.drop sk) n 0 true [] sk
 
 /-- `rtosc_scan_message(src, address, adrsize, args, n, …)`: (characters read, address, cells) -/
 def scanMessage (src : Bytes) (adrsize : Nat) (n : Nat) : Res (Nat × Bytes × List Cell) := do
